@@ -4,9 +4,23 @@
    Protocol statements are about every reachable state of the model of one apply record: any iteration count n >= 1,
    any initial da_thr_cnt T (the caller c and T-1 helper continuations, each of which may start at any time or
    never), any interleaving, spurious futex returns included.  A nested apply is another instance of the same model
-   on its own record (the work function is opaque), so the statements hold at every nesting depth. *)
+   on its own record (the work function is opaque), so the statements hold at every nesting depth.
+
+   The model's enabling condition for a helper ("a participant may enter invoke2 only while fewer than T participants
+   have entered": each of the T-1 continuations pushed by _dispatch_apply_f is invoked at most once) is discharged by
+   the root-queue model: Properties_C01_root.C01_root_pop_unique (the k-th dequeue returns the k-th pushed item, no item is
+   dequeued twice) together with C10_helper_batch_push_is_rootq_run below.  Modelling limit of RootQ: it has pushes of ONE
+   item, whereas _dispatch_apply_f pushes its T-1 continuations with one os_mpsc_push_list (privately pre-linked chain,
+   one exchange on dq_items_tail, one link store).  The limit does not matter for at-most-once: the theorem below shows
+   that both shared states of such a batch push are reachable RootQ states (reached by T-1 single pushes run back to back,
+   the first pusher's link store last), with the same list, the same ghost chain and push history; the batch performs no
+   other shared access in between, so its interleavings are a subset of RootQ's.  Not carried over: the poke (one request for
+   T-1 workers instead of T-1 requests for one) — it only decides how many workers wake up, which no C10 theorem uses
+   (C10_terminates_without_helpers holds even if no helper ever runs).  Also outside RootQ: that the worker which dequeued
+   a continuation invokes it exactly once (_dispatch_continuation_pop / C01's drain part: runs history of RootQ). *)
 From Coq Require Import ZArith Bool List.
 From Verif Require Import Word Conc Gen_consts Gen_fields Gen_apply Apply Apply_proofs ApplyR ApplyR_proofs.
+From Verif Require RootQ ApplyRoot_proofs.
 Import ListNotations.
 Local Open Scope Z_scope.
 
@@ -120,6 +134,25 @@ Print Assumptions C10_replay_reach.
 Theorem C10_inv_b_reach : forall n T c tids s, valid_params n T -> reach n T c s -> inv_b n T c tids s = true.
 Proof. exact inv_b_reach. Qed.
 Print Assumptions C10_inv_b_reach.
+
+(* -- the batch push of the helper continuations is a run of the root-queue model (see the header): from any reachable
+      RootQ state s with fresh items x1 :: xs and idle pusher ids, phase A (= the batch's exchange) and phase B (= its link
+      store) are executed by RootQ.gstep, both resulting states are reachable, and they carry exactly the batch's effect -- *)
+Theorem C10_helper_batch_push_is_rootq_run : forall oc p0 s t1 x1 rest,
+  RootQ.reach oc p0 s -> ApplyRoot_proofs.fresh s ((t1, x1) :: rest) ->
+  let P := RootQ.tail s in let xs := map snd rest in
+  exists sA sB,
+    RootQ.grun oc s (ApplyRoot_proofs.batch_phaseA t1 x1 P rest) = Some sA /\
+    RootQ.grun oc sA (ApplyRoot_proofs.batch_phaseB t1 x1 P) = Some sB /\
+    RootQ.reach oc p0 sA /\ RootQ.reach oc p0 sB /\
+    RootQ.tail sA = last xs x1 /\ RootQ.head sA = RootQ.head s /\ ApplyRoot_proofs.linked (RootQ.nxt sA) x1 xs /\
+    RootQ.chain sA = RootQ.chain s ++ x1 :: xs /\ map fst (RootQ.hpush sA) = map fst (RootQ.hpush s) ++ x1 :: xs /\
+    RootQ.hpop sA = RootQ.hpop s /\ (P <> 0 -> RootQ.nxt sA P = RootQ.nxt s P) /\
+    RootQ.tail sB = RootQ.tail sA /\ RootQ.chain sB = RootQ.chain sA /\ RootQ.hpush sB = RootQ.hpush sA /\
+    RootQ.hpop sB = RootQ.hpop sA /\ ApplyRoot_proofs.linked (RootQ.nxt sB) x1 xs /\
+    (if P =? 0 then RootQ.head sB = x1 else RootQ.nxt sB P = x1 /\ RootQ.head sB = RootQ.head s).
+Proof. exact ApplyRoot_proofs.batch_push_is_a_rootq_run. Qed.
+Print Assumptions C10_helper_batch_push_is_rootq_run.
 
 (* non-vacuity: n = 2, T = 2, caller 1, helper 2.  The caller runs index 0, finds nothing left, subtracts (todo 2 -> 1),
    waits and sleeps in futex_wait; the helper runs index 1, brings da_todo to 0, signals (UINT32_MAX -> 0), wakes the
